@@ -70,6 +70,41 @@ def isRoot (g : TGraph) (flat : Bool) (i : Nat) : Bool :=
 def typeName (T : Tables) (t : VT) : Str :=
   ((T.kv2Names.find? (·.1 == t)).map (·.2)).getD []
 
+def uuidAt (g : TGraph) (j : Nat) : Str := ((g.elems[j]?).map (·.uuid)).getD []
+
+/-- one element reference: `"element" ""` (NULL), `"element" "<uuid>"` (stub, or an element written
+at the top level), or the element itself inline (`child`). -/
+def refText (g : TGraph) (flat : Bool) (child : Nat → Str → Str) (r : TRef) (ind : Str) : Str :=
+  match r with
+  | .null => ['"', 'e', 'l', 'e', 'm', 'e', 'n', 't', '"', ' ', '"', '"']
+  | .stub u => ['"', 'e', 'l', 'e', 'm', 'e', 'n', 't', '"', ' ', '"'] ++ u ++ ['"']
+  | .idx j =>
+    if isRoot g flat j then ['"', 'e', 'l', 'e', 'm', 'e', 'n', 't', '"', ' ', '"'] ++ uuidAt g j ++ ['"']
+    else child j ind
+
+/-- the items of an array attribute, each on its own line at indentation `ia`, separated by commas
+(`i == len(attr) - 1` ⇔ no item follows). -/
+def emitItems (E : Tok.Tables) (g : TGraph) (flat : Bool) (child : Nat → Str → Str) (ia : Str) :
+    List TVal → Str
+  | [] => []
+  | v :: rest =>
+    ia ++ (match v with
+      | .ref r => refText g flat child r ia
+      | .text s => quote E s) ++
+    (if rest.isEmpty then crlf else ',' :: crlf) ++ emitItems E g flat child ia rest
+
+/-- one attribute (`ic` = indentation of the attribute, `ia` = of array items). -/
+def emitAttr (E : Tok.Tables) (T : Tables) (g : TGraph) (flat : Bool) (child : Nat → Str → Str)
+    (ic ia : Str) (a : TAttr) : Str :=
+  ic ++ quote E a.name ++ [' '] ++
+  (if a.isArray then
+    ['"'] ++ typeName T a.type ++ ['_', 'a', 'r', 'r', 'a', 'y', '"'] ++ crlf ++ ic ++ ['['] ++ crlf ++
+    emitItems E g flat child ia a.vals ++ ic ++ [']'] ++ crlf
+  else match a.vals with
+    | [.ref r] => refText g flat child r ic ++ crlf
+    | [.text s] => ['"'] ++ typeName T a.type ++ ['"', ' '] ++ quote E s ++ crlf
+    | _ => [])
+
 /-- `_export_kv2` of element `i` at indentation `indent`. The fuel bounds the nesting depth (an
 element that is not a root is referenced once, so the depth is at most the number of elements). -/
 def emitElem (E : Tok.Tables) (T : Tables) (g : TGraph) (flat cull : Bool) :
@@ -81,34 +116,10 @@ def emitElem (E : Tok.Tables) (T : Tables) (g : TGraph) (flat cull : Bool) :
     | some e =>
       let ic := indent ++ ['\t']
       let ia := indent ++ ['\t', '\t']
-      let child (j : Nat) (ind : Str) : Str := emitElem E T g flat cull fuel ind j
-      let refText (r : TRef) (ind : Str) : Str :=
-        match r with
-        | .null => ['"', 'e', 'l', 'e', 'm', 'e', 'n', 't', '"', ' ', '"', '"']
-        | .stub u => ['"', 'e', 'l', 'e', 'm', 'e', 'n', 't', '"', ' ', '"'] ++ u ++ ['"']
-        | .idx j =>
-          if isRoot g flat j then ['"', 'e', 'l', 'e', 'm', 'e', 'n', 't', '"', ' ', '"'] ++ ((g.elems[j]?).map (·.uuid)).getD [] ++ ['"']
-          else child j ind
       quote E e.type ++ crlf ++ indent ++ ['{'] ++ crlf ++
       (if !cull || isRoot g flat i then ic ++ ['"', 'i', 'd', '"', ' ', '"', 'e', 'l', 'e', 'm', 'e', 'n', 't', 'i', 'd', '"', ' ', '"'] ++ e.uuid ++ ['"'] ++ crlf else []) ++
       ic ++ ['"', 'n', 'a', 'm', 'e', '"', ' ', '"', 's', 't', 'r', 'i', 'n', 'g', '"', ' '] ++ quote E e.name ++ crlf ++
-      (e.attrs.flatMap fun a =>
-        ic ++ quote E a.name ++ [' '] ++
-        (if a.isArray then
-          ['"'] ++ typeName T a.type ++ ['_', 'a', 'r', 'r', 'a', 'y', '"'] ++ crlf ++ ic ++ ['['] ++ crlf ++
-          ((a.vals.zipIdx).flatMap fun (v, k) =>
-            ia ++ (match v with
-              | .ref r => refText r ia
-              | .text s => quote E s) ++
-            (if k + 1 = a.vals.length then crlf else [','] ++ crlf)) ++
-          ic ++ [']'] ++ crlf
-        else match a.vals with
-          | [.ref r] =>
-            (match r with
-             | .idx j => if isRoot g flat j then refText r ic ++ crlf else refText r ic ++ crlf
-             | _ => refText r ic ++ crlf)
-          | [.text s] => ['"'] ++ typeName T a.type ++ ['"', ' '] ++ quote E s ++ crlf
-          | _ => [])) ++
+      (e.attrs.flatMap (emitAttr E T g flat (fun j ind => emitElem E T g flat cull fuel ind j) ic ia)) ++
       indent ++ ['}']
 
 /-- The body of `export_kv2` after the header comment line. -/
